@@ -25,8 +25,45 @@ function cfgOf (prefix, kind) {
   }
 }
 
+// H6 (static pass, appended after the scheduled runs so that no earlier run changes): the emitted text of
+// rewritten programs from the generators of C13 / C16 (syntax zoo, corpus of the repository's own test inputs,
+// module syntax, repeated constructs, wide expressions, generated programs) is parsed by the harness and every
+// temporary must be declared by an injected `let` inside its own function, before its use (simrw/src/scope.rs)
+const BASE_RUNS = { quick: 3000, thorough: 120000 }
+const H6_RUNS = { quick: 500, thorough: 20000 }
+const H6_KINDS = ['zoo', 'zoo', 'zoo', 'program', 'program', 'corpus', 'corpus', 'module', 'repeat', 'wide']
+const H6_METHODS = ['substring', 'trim', 'trimStart', 'trimEnd', 'concat', 'slice', 'replace'].map(src => ({ src }))
+
+function planH6 (rng) {
+  const gens = []
+  for (let i = 0; i < 8; i++) gens.push({ kind: rng.pick(H6_KINDS), seed: rng.next() % 1000000007 })
+  return { mode: 'h6', gens, prefix: 'sim', cfgKind: rng.pick(['h6-full', 'h6-full', 'h6-full', 'h6-methods-only', 'h6-operators-only', 'h6-without-callee']) }
+}
+
+function cfgH6 (prefix, kind) {
+  const c = cfgOf(prefix, 'full')
+  const operators = [{ src: 'plusOperator', operator: true }, { src: 'tplOperator', operator: true }]
+  c.csiMethods = kind === 'h6-methods-only' ? H6_METHODS : kind === 'h6-operators-only' ? operators : operators.concat(H6_METHODS)
+  if (kind === 'h6-without-callee') c.csiMethods = c.csiMethods.concat([{ src: 'trim', dst: 'trimAlone', allowedWithoutCallee: true }, { src: 'fn0', allowedWithoutCallee: true }])
+  return c
+}
+
+function jobsH6 (plan) {
+  return plan.gens.map((g, i) => ({ cfg: cfgH6(plan.prefix, plan.cfgKind), prng_seed: 1, file: `/sim/c06/h6-${i}.js`, gen: g, scopecheck: true }))
+}
+
+function scopeViolations (resp, where) {
+  const out = []
+  const sc = resp && resp.scope
+  if (!sc) return out
+  if (sc.parse_error) { out.push({ invariant: 'H6', key: 'H6:emitted-text-does-not-parse', detail: `${where}: the harness parser rejects the emitted text (${sc.parse_error})` }); return out }
+  for (const f of sc.findings || []) out.push({ invariant: 'H6', key: f.key, detail: `${where}: ${f.detail}` })
+  return out
+}
+
 function plan (seed, run, tier) {
   const rng = new Rng(mix(mix(seed >>> 0, 0xC06), run))
+  if (run >= (BASE_RUNS[tier] || BASE_RUNS.quick)) return planH6(rng)
   // two runs in five exercise the privacy clause; placement and index are walked round-robin (the h5 runs of
   // a batch cover every placement with the indexes 0, 1, 0, 1, 2, 7 in turn), the rest is drawn
   if (run % 5 >= 3) return planH5(rng, 'sim', Math.floor(run / 5) * 2 + (run % 5 - 3))
@@ -47,13 +84,14 @@ function plan (seed, run, tier) {
 }
 
 function jobs (plan) {
+  if (plan.mode === 'h6') return jobsH6(plan)
   if (plan.mode === 'h5') {
     const js = [{ cfg: cfgOf(plan.prefix || 'sim'), prng_seed: 1, file: FILE, code: plan.text }]
     if (plan.preJob) js.unshift({ cfg: cfgOf('other'), prng_seed: 1, file: '/sim/c06/pre.js', code: 'function pre(a, b) { const x = a() + b(); return `${a()}${b()}` + x.trim(); }\n' })
     return js
   }
   const r = render(plan.prog)
-  return [{ cfg: cfgOf(plan.prefix, plan.cfgKind), prng_seed: 1, file: FILE, code: r.text }]
+  return [{ cfg: cfgOf(plan.prefix, plan.cfgKind), prng_seed: 1, file: FILE, code: r.text, scopecheck: true }]
 }
 
 const tick = () => new Promise((resolve) => setImmediate(resolve))
@@ -106,6 +144,30 @@ async function execute (plan, table) {
   const wantLog = !!process.env.VERIF_LOG
   const rep = { events: 0, logDigest: 0, violations: [], notes: [], stats: {}, shapes: [], cells: [] }
   const st = (k, n) => { rep.stats[k] = (rep.stats[k] || 0) + (n === undefined ? 1 : n) }
+  if (plan.mode === 'h6') {
+    const js = jobsH6(plan)
+    const cells = []
+    js.forEach((job, i) => {
+      const resp = table.get(job)
+      const g = plan.gens[i]
+      const cls = resp.ok ? resp.ok.metrics.status : resp.err ? (/Variable name duplicated/.test(String(resp.err)) ? 'refused' : 'syntax-error') : 'panic'
+      st('h6:' + g.kind + ':' + cls)
+      cells.push('h6:' + g.kind + ':' + cls)
+      if (resp.ok && resp.ok.metrics.status === 'modified') {
+        st('h6:emitted-texts-checked')
+        st('h6:temporary-occurrences-resolved', (resp.scope && resp.scope.uses) || 0)
+        st('h6:injected-let-declarations-seen', (resp.scope && resp.scope.lets) || 0)
+        for (const v of scopeViolations(resp, `gen ${g.kind}#${g.seed}`)) rep.violations.push(v)
+      }
+      if (wantLog) (rep.log = rep.log || []).push(`h6 gen=${g.kind}#${g.seed} -> ${cls} scope=${JSON.stringify(resp.scope || null)}`, '---- source ----', String(resp.source || ''), '---- rewriter answered ----', resp.ok ? String(resp.ok.content || '').split('\n//# sourceMappingURL')[0] : String(resp.err || resp.panic))
+    })
+    const seen = new Set()
+    rep.violations = rep.violations.filter(v => !seen.has(v.key) && seen.add(v.key))
+    rep.cells = [...new Set(cells)]
+    rep.events = js.length
+    rep.logDigest = fnv32(cells.join(',') + JSON.stringify(rep.violations.map(v => v.key)))
+    return rep
+  }
   if (plan.mode === 'h5') {
     const resp = table.get({ cfg: cfgOf(plan.prefix || 'sim'), prng_seed: 1, file: FILE, code: plan.text })
     const o = executeH5(plan, resp, FILE)
@@ -148,6 +210,9 @@ async function execute (plan, table) {
     rep.violations.push({ invariant: 'H3', key: 'H3:rewritten-module-does-not-load', detail: `the rewritten module fails to load (${rw.loadError.name}: ${rw.loadError.message}) while the original loads` })
   }
   for (const v of w.violations) rep.violations.push(v)
+  // H6: the same clause decided statically on the emitted text (paths no schedule executed included)
+  for (const v of scopeViolations(resp, 'scheduled module')) rep.violations.push(v)
+  st('h6:temporary-occurrences-resolved', (resp.scope && resp.scope.uses) || 0)
   for (const e of w.exceptions) {
     if (origMsgs.has(e.msg)) continue
     const undeclared = /__datadog_\w+ is not defined|Cannot access '__datadog/.test(e.msg)
@@ -180,6 +245,7 @@ function clone (x) { return JSON.parse(JSON.stringify(x)) }
 
 function shrink (plan) {
   if (plan.mode === 'h5') return []
+  if (plan.mode === 'h6') return plan.gens.length > 1 ? plan.gens.map((g) => { const q = clone(plan); q.gens = [g]; return q }) : []
   const out = []
   const P = plan.prog
   // drop whole functions
@@ -212,6 +278,7 @@ function shrink (plan) {
 }
 
 function summarise (plan) {
+  if (plan.mode === 'h6') return { mode: 'h6 (static scope oracle over emitted text; sources are a pure function of generator kind and seed: `VERIF_LOG=1 ./check C06 --replay <file>` prints them)', gens: plan.gens, cfgKind: plan.cfgKind }
   if (plan.mode === 'h5') return { mode: 'h5 (privacy clause, input-driven)', placement: plan.placement, identifier: plan.R, strict: plan.strict, program: plan.text.split('\n') }
   const r = render(plan.prog)
   return { strict: plan.prog.strict, functions: r.names, operations: Object.values(r.ops).map(o => `${o.hook}@${o.label}[${o.leaves.join(',')}]`).slice(0, 30), schedSeed: plan.schedSeed, budget: plan.budget, depth: plan.depth, lateHooks: plan.lateHooks, program: r.text.split('\n').slice(0, 60) }
@@ -221,7 +288,7 @@ module.exports = {
   id: 'C06',
   level: 'exploration',
   chunk: 25,
-  runs: (tier) => tier === 'thorough' ? 120000 : 3000,
+  runs: (tier) => (BASE_RUNS[tier] || BASE_RUNS.quick) + (H6_RUNS[tier] || H6_RUNS.quick),
   plan,
   jobs,
   execute,
